@@ -622,3 +622,65 @@ def rule_floorenc(ctx, prop: str) -> RuleResult:
         raise AnalysisError(f"FLOORENC: expected 6 floor-quotient encodings (bounds checker / and %, analysis core / and % in SMT and Z3 form), found lo={n_lo} hi={n_hi}")
     res.floor = 12
     return res
+
+
+def rule_cfguniq(ctx, prop: str) -> RuleResult:
+    """Invariant of the bounds checker's effect values: the `config_writes` list of an effect holds AT
+    MOST ONE entry per configuration field.  eff_concat relies on it — it turns the list into dicts
+    keyed by (config, field) (`env`, `cws1`, `cws2`), where a second entry for the same field silently
+    replaces the first.  So every `E.effect(...)` is built with a config_writes argument that keeps the
+    invariant: empty, a single write, the list of ONE effect (possibly mapped one-to-one), or the result
+    of the same-field merge.  A plain concatenation of two effects' lists (the two branches of an `if`
+    that both write Cfg.a) breaks it: the else-branch write hides the then-branch write and
+    `if n > 3: Cfg.a = 5 else: Cfg.a = 0; if Cfg.a == 0: pass else: x[5] = 0.0` is accepted."""
+    ix = ctx.ix
+    res = RuleResult("CFGUNIQ")
+    m = ix.module(B)
+    # mergers: functions that key both lists by (config, field) and combine the overlap
+    mergers = set()
+    for f in m.funcs.values():
+        if not isinstance(f.node, ast.FunctionDef):
+            continue
+        dicts = [n for n in f.own_nodes() if isinstance(n, ast.DictComp) and isinstance(n.key, ast.Tuple) and {ast.unparse(e).split(".")[-1] for e in n.key.elts} == {"config", "field"}] if hasattr(f, "own_nodes") else \
+                [n for n in f.body_nodes() if isinstance(n, ast.DictComp) and isinstance(n.key, ast.Tuple) and {ast.unparse(e).split(".")[-1] for e in n.key.elts} == {"config", "field"}]
+        if len(dicts) >= 2 and any(isinstance(n, ast.Call) and last_name(n) == "intersection" for n in f.body_nodes()):
+            mergers.add(f.node.name)
+    if not mergers:
+        raise AnalysisError("anchor vanished: no same-field merge of configuration writes (dicts keyed by (config, field) + overlap) in boundscheck.py")
+
+    def unique_ok(e: ast.AST, f: Func, depth: int = 0) -> bool:
+        if isinstance(e, ast.List):
+            return len(e.elts) <= 1
+        if isinstance(e, ast.Attribute) and e.attr == "config_writes":
+            return True
+        if isinstance(e, ast.ListComp) and len(e.generators) == 1 and not e.generators[0].ifs or isinstance(e, ast.ListComp) and len(e.generators) == 1:
+            return unique_ok(e.generators[0].iter, f, depth + 1)
+        if isinstance(e, ast.Call) and last_name(e) in mergers | {"merge_writes"}:
+            if last_name(e) == "merge_writes":
+                # local alias of a merger
+                al = [k for k in f.body_nodes() if isinstance(k, ast.Assign) and dotted(k.targets[0]) == "merge_writes"]
+                return bool(al) and all(isinstance(k.value, ast.Name) and k.value.id in mergers for k in al) or any(isinstance(k, ast.FunctionDef) and k.name == "merge_writes" for k in ast.walk(f.node))
+            return True
+        if isinstance(e, ast.Name) and depth < 3:
+            vals = [k.value for k in f.body_nodes() if isinstance(k, ast.Assign) and len(k.targets) == 1 and dotted(k.targets[0]) == e.id]
+            return bool(vals) and all(unique_ok(v, f, depth + 1) for v in vals)
+        return False
+
+    n = 0
+    for f in sorted((f for f in ix.all_funcs() if f.file == B), key=lambda f: f.lineno):
+        for k in f.body_nodes():
+            if isinstance(k, ast.Call) and dotted(k.func) == "E.effect" and len(k.args) >= 5:
+                n += 1
+                res.instances += 1
+                res.nontrivial += 1
+                ok = unique_ok(k.args[4], f)
+                res.ob(ok)
+                res.sample(f"{f.qualname}: config_writes = `{ast.unparse(k.args[4])[:60]}` keeps one entry per field: {ok}")
+                if not ok:
+                    res.add(Finding("CFGUNIQ", B, k.lineno, f.qualname, f"config_writes:{ast.unparse(k.args[4])[:50]}",
+                                    f"{f.qualname} builds an effect whose config_writes is `{ast.unparse(k.args[4])[:70]}`: two writes of the same field (the two branches of an `if`) end up as two entries, and "
+                                    f"eff_concat's dicts keyed by (config, field) keep only the last — the value written by the other branch is forgotten and an out-of-bounds access that depends on it is accepted"))
+    if n < 10:
+        raise AnalysisError(f"CFGUNIQ: expected >= 10 E.effect constructions in boundscheck.py, found {n}")
+    res.floor = 10
+    return res
